@@ -91,7 +91,7 @@ def histories(ctx, model_ok, tmp, mode):
                 live.add(i), registered.add(i)
                 line = f"art store {i} {pno(art[i])} plain"
                 ops.append(f"put {i}")
-            elif r < 0.34:
+            elif r < 0.32:
                 k = rng.choice([1, 2, 2, 3])
                 ids = list(range(nid + 1, nid + 1 + k))
                 nid += k
@@ -112,6 +112,32 @@ def histories(ctx, model_ok, tmp, mode):
                     live.add(i), registered.add(i)
                 line = f"art store {','.join(map(str, ids))} {pno(p)} plain"
                 ops.append(f"ingest-{how} {ids}")
+            elif r < 0.36:
+                # a file outside the root, named through the root ("<root>/../../ext/x.yaml"), ingested in place (transfer None /
+                # auto) or with transfer="split": it is not below the root, so it must be refused or treated as not owned
+                nid += 1
+                i = nid
+                run = rng.choice(runs)
+                srcf = os.path.join(ext, f"sneak{i}.yaml")
+                with open(srcf, "w") as fh:
+                    fh.write(f"n: {i}\n")
+                how = rng.choice(["split", "split", None, "auto"])
+                spelled = f"file://{root}/../../ext/sneak{i}.yaml"
+                rf = DatasetRef(dt, {"instrument": "I", "detector": i}, run=run)
+                try:
+                    b.ingest(FileDataset(path=spelled, refs=[rf]), transfer=how)
+                    accepted = True
+                except Exception:
+                    accepted = False
+                ops.append(f"ingest-{how}-through-root {'accepted' if accepted else 'refused'} [{i}]")
+                ctx.count(f"ingest-through-root:{how}:{'accepted' if accepted else 'refused'}")
+                if not accepted:
+                    os.remove(srcf)
+                    continue
+                ext_files[srcf] = True
+                refs[i], content[i], art[i], kind_of[i], run_of[i] = rf, {"n": i}, srcf, "direct", run
+                live.add(i), registered.add(i)
+                line = f"art store {i} {pno(srcf)} direct"
             elif r < 0.44:
                 k = rng.choice([1, 2])
                 ids = list(range(nid + 1, nid + 1 + k))
